@@ -1,12 +1,12 @@
 SPECIFICATION SpecAllReleased
 CONSTANTS
-  N = 1
-  T = 4
-  Kind <- K_N1
+  N = 2
+  T = 6
+  Kind <- K_hist
   HoldLock = FALSE
   OneShot = FALSE
   Guarded = TRUE
-  Spawned = 1
-INVARIANT Safety
+  Spawned = 2
+INVARIANT Safety NoWorkerLost
 PROPERTIES EventuallyAllDone NoIdleStarvation
 CHECK_DEADLOCK FALSE
